@@ -121,7 +121,7 @@ def r2_harness(ctx):
         effs = path_effects(fc, path)
         deact = [e for e in effs if e[0] == 'c' and e[1].name == 'std::sync::atomic::Atomic::store' and
                  any(x[0] == 'field' and x[2] == 'active' for x in walk(e[2][0])) and e[2][1] == ('int', 0)]
-        ret = path_ret(fc, path)
+        ret = path_ret_resolved(fc, path)
         is_err = ret is not None and ret[0] == 'agg' and ret[1].endswith('Result::Err')
         n += 1
         if unw == _PANICKED:
@@ -150,7 +150,7 @@ def r2_harness(ctx):
                 continue
             atoms = [a for _, a in path_atoms(fp, path, decs)]
             unw = next((a[2] for a in atoms if a[0] == 'is' and a[1][0] == 'field' and a[1][2] == PF), None)
-            ret = path_ret(fp, path)
+            ret = path_ret_resolved(fp, path)
             is_err = ret is not None and ret[0] == 'agg' and ret[1].endswith('Result::Err')
             ok_pass = is_err == (unw == _PANICKED)
             rp = peel(ret) if ret is not None else None
